@@ -4,6 +4,7 @@ import (
 	"archive/tar"
 	"io"
 	"io/fs"
+	"os"
 
 	models "github.com/pojntfx/stfs/internal/db/sqlite/models/metadata"
 	vm "github.com/pojntfx/stfs/internal/verifmodel"
@@ -255,4 +256,37 @@ func Harness_C06_torn_directory_rename() {
 	keep := c06Row(rows, "/keep")
 	vm.Assert("C06.unrelated_entry_untouched_by_torn_rename", keep != nil && keep.Deleted != 1 && keep.Size == 2)
 	vm.Cover("C06.some_move_records_complete", k > 0)
+}
+
+// Harness_C06_initialize_over_torn_tape: the filesystem is opened (STFS.Initialize, no index) over a tape whose last
+// record — a new file or a content update — is cut at any byte of its content. Initialize reports the tear and leaves
+// the tape as it found it; every completely written entry is in the index exactly as a rebuild of the intact prefix
+// has it.
+func Harness_C06_initialize_over_torn_tape() {
+	vm.SetUnwind(12)
+	kind := vm.Choice("lastRecord", 2) // CREATE of /b with content, content UPDATE of /a
+	ref := verifNewFS(config.PipeConfig{}, false, true)
+	lastRef := c06Build(ref, kind)
+	ref.Env.Tape.CutAt(lastRef.Start)
+	refIdx, rerr := c01Rebuild(ref)
+	vm.Assert("C06.prefix_rebuilds", rerr == nil)
+
+	v := verifNewFS(config.PipeConfig{}, vm.Bool("readOnly"), true)
+	last := c06Build(v, kind)
+	t := v.Env.Tape
+	t.CutAt(last.Start + 512*3 + vm.Int64("cut", 0, last.Size-1))
+	lenBefore, appends := t.Len, t.Appends
+	vm.UnwindIsViolation("C06.initialize_terminates")
+	_, err := v.FS.Initialize("/", os.ModePerm)
+	vm.UnwindIsViolation("")
+	vm.Assert("C06.initialize_reports_the_tear", err != nil)
+	vm.Assert("C06.initialize_leaves_the_torn_tape_alone", t.Len == lenBefore && t.Appends == appends && t.Truncates == 0)
+	rows, refRows := v.Env.P.VerifRows(), refIdx.VerifRows()
+	vm.Assert("C06.initialize_keeps_the_root", c06SameRow(c06Row(rows, "/"), c06Row(refRows, "/")) && c06Row(rows, "/") != nil)
+	if kind == 0 {
+		vm.Assert("C06.initialize_keeps_complete_entries", c06SameRow(c06Row(rows, "/a"), c06Row(refRows, "/a")) && c06Row(rows, "/a") != nil)
+	} else {
+		vm.Assert("C06.initialize_keeps_complete_entries", c06Row(rows, "/a") != nil && c06Row(rows, "/a").Deleted != 1)
+	}
+	vm.Assert("C06.initialize_locks_free", v.Env.LocksFree())
 }
